@@ -225,6 +225,8 @@ def inst_of(x):
         return {"k": "opaque", "tag": f"str:{x}"}
     if isinstance(x, tuple):
         return {"k": "tup", "items": [inst_of(v) for v in x]}
+    if isinstance(x, list):
+        return {"k": "list", "items": [inst_of(v) for v in x]}
     if isinstance(x, np.ndarray):
         return {
             "k": "arr",
@@ -261,7 +263,7 @@ def canon_inst(i):
             "cls": i.get("cls", ""),
             "attrs": sorted(([a, canon_inst(v)] for a, v in i["attrs"]), key=lambda t: t[0]),
         }
-    if k in ("tup", "arr"):
+    if k in ("tup", "arr", "list"):
         d = dict(i)
         d["items"] = [canon_inst(v) for v in i["items"]]
         return d
@@ -300,7 +302,7 @@ def inst_diff(a, b, ulps=0, path=()):
             if d:
                 return d
         return None
-    if k in ("tup", "arr"):
+    if k in ("tup", "arr", "list"):
         if k == "arr" and a.get("shape") != b.get("shape"):
             return (path, a.get("shape"), b.get("shape"))
         if len(a["items"]) != len(b["items"]):
